@@ -181,6 +181,7 @@ class Session:
         if self.next_stamp is not None:
             srv = list(self.next_stamp)
         for r, d in items:
+            d["stamped"] = self.next_stamp is not None   # came through a notification queue
             d["g"] = w.gseq
             d["vt"] = round(w.loop.time(), 3)
             if d["kind"] in ("EXISTS", "EXPUNGE", "FETCH"):
